@@ -1,11 +1,11 @@
 SPECIFICATION Spec
 CONSTANTS
   Ids = {1, 2, 3}
-  Sizes = {0, 1, 8, 24}
-  Sites = {1, 2, 3, 4}
-  StrLens = {0, 5}
-  CallocShapes <- ShapesThorough
-  Levels = {0, 4, 5, 6}
+  Sizes = {0, 8}
+  Sites = {1, 2, 3}
+  StrLens = {5}
+  CallocShapes <- ShapesPool4
+  Levels = {4, 5}
   Obs <- ObsEmit
 INVARIANTS TypeOK TableIsLiveSet UnknownPointerNoChange ReallocNullAllocates ReallocZeroFrees ReallocKeepsOthers
 PROPERTY LevelConstant
